@@ -107,7 +107,8 @@ template <int S, int D> struct SplineWorld {
     return ps;
   }
   std::unique_ptr<Sp> S1, S2; PP T; int m1 = -1, m2 = -1, mt = -1;
-  SplineWorld() : S1(new Sp()), S2(new Sp()) {}
+  const PP *R = nullptr;   // a reference to S1's trajectory taken ONCE, before any update, and kept by the caller (S1 is never re-allocated)
+  SplineWorld() : S1(new Sp()), S2(new Sp()) { R = &S1->getTrajectory(); }
   int nops() const { return 21; }
   bool enabled(int op) const { if (op == 16) return m1 >= 0; return true; }
   std::string opname(int op) const {
@@ -148,7 +149,11 @@ template <int S, int D> struct SplineWorld {
     return "";
   }
   std::string check(std::string &digest) {
-    Canon dg; std::string m = check_traj(S1->getTrajectory(), m1, "S1.getTrajectory()", dg);
+    // first, through the reference the caller has held since before the updates (no accessor is called in between): update() refreshes the
+    // trajectory in place, it is not re-published lazily by the next getter call (seeded change C11-m8)
+    Canon dg; std::string m = check_traj(*R, m1, "the trajectory reference obtained from S1.getTrajectory() before the updates", dg);
+    if (m.empty() && R != &S1->getTrajectory()) m = "S1.getTrajectory() no longer refers to the same trajectory object";
+    if (m.empty()) m = check_traj(S1->getTrajectory(), m1, "S1.getTrajectory()", dg);
     // the *Copy getters hand out independent objects even when the caller binds the result to a reference
     { const auto &r1 = S1->getTrajectoryCopy(); const auto &r2 = S1->getPPolyCopy(); if (m.empty() && ((const void *)&r1 == (const void *)&S1->getTrajectory() || (const void *)&r2 == (const void *)&S1->getPPoly())) m = "getTrajectoryCopy() / getPPolyCopy() returns a reference to the spline's own trajectory, not a copy";
       if (m.empty() && m1 >= 0) { PP keep = r2; const auto &ps = problems(); const auto &q = ps[(m1 + 1) % 4]; Sp tmp = *S1; const auto &r3 = tmp.getPPolyCopy(); tmp.update(q.T, q.P, q.t0, q.bc); if (r3.getBreakpoints() != keep.getBreakpoints() || !mat_bits_equal(r3.getCoefficients(), keep.getCoefficients())) m = "a trajectory obtained through getPPolyCopy() changed when its spline was updated"; } }
